@@ -17,3 +17,10 @@ Definition sw_show (c : sw_case) :=
   match c with
   | SwCase bs _ _ _ => let r := sw_run sw_start bs in (notable (snd r), fst r)
   end.
+
+Definition sw_ok_wf (c : sw_case) : bool :=
+  sw_ok c &&
+  match c with
+  | SwCase _ obs _ _ =>
+      forallb (fun p => match snd p with OReply r => sw_reply_wfb r | _ => true end) obs
+  end.
